@@ -18,6 +18,7 @@ import H263V.Lemmas.StreamAny
 import H263V.Lemmas.ReconSpec
 import H263V.Lemmas.LevelArrays
 import H263V.Lemmas.SampleErr
+import H263V.Lemmas.Truncated
 namespace H263V.Thm.C03
 open H263V H263V.Gather H263V.Mv H263V.Spec.Vlc
 
@@ -187,6 +188,36 @@ theorem predicted_samples_within_one_of_ideal (types : Array MbType) (r : DecPic
     (∀ k, ((out.cr.getD k 0 : Int) -
       (idealVal crLv m r.chromaSpr r.cr.size k (chromaAt types r.cr r.chromaSpr mvs m pic.cr k) : Int)).natAbs ≤ 1) :=
   predicted_close types r mvs m w hh pic out lumaLv cbLv crLv hdims hw hc hcs hm hls hbs hrs hl hb hr h
+
+open H263V.State H263V.Lemmas.SorensonPicture H263V.Lemmas.PictureRoundTrip H263V.Lemmas.Truncated in
+/-- **Early end of data.**  A Sorenson picture of which only the first macroblocks are present — any number up to the picture's —
+followed by at most seven zero padding bits and the end of the data: the call behaves as the bit-free semantics of the SHORT
+macroblock list (`semCore` completes the arrays with not-coded macroblocks: INTER, zero vectors, no coefficients), commits its
+picture and leaves the reader at the padding.  By `not_coded_macroblocks_are_copies` those macroblocks are exact copies of the
+co-located reference macroblocks.  (The general form, for any header flavour and any tail that reads as end of data, is
+`Lemmas.Truncated.decodeCore_encode_le`.) -/
+theorem truncated_picture_round_trip (s : State) (hs : s.opts.sorenson = true) (hr : s.running = 0) (p : SPic) (w h : Nat)
+    (hhdr : Lemmas.SorensonRoundTrip.Valid p.hdr) (hpt : p.hdr.picType ≤ 2)
+    (hd : (Spec.HeaderSpec.sorensonFmt p.hdr).dims = some (w, h))
+    (hcount : p.mbs.length ≤ (w + 15) / 16 * ((h + 15) / 16))
+    (hmbs : ∀ m ∈ p.mbs, MbOK s.opts (Spec.HeaderSpec.sorensonPicture p.hdr) (p.hdr.picType == 0) m)
+    (k : Nat) (hk : k ≤ 7) (pos : Nat) :
+    decodeNextPicture s ⟨p.bits ++ zeros k, pos⟩ =
+      semCore s (Spec.HeaderSpec.sorensonPicture p.hdr) p.mbs >>= fun r =>
+        .ok (commitPic s r.1 r.2, ⟨zeros k, pos + p.bits.length⟩) :=
+  decode_spic_truncated s hs hr p w h hhdr hpt hd hcount hmbs k hk pos
+
+open H263V.Lemmas.GatherPic H263V.Lemmas.ReconSpec in
+/-- **Not-coded macroblocks are exact copies** of the co-located reference macroblock: an INTER macroblock with zero vectors whose
+block slot holds no coefficients (COD = 1, and every macroblock after an early end of data) reproduces the reference sample. -/
+theorem not_coded_macroblocks_are_copies (types : Array MbType) (r : DecPic) (mvs : Array Mv4) (m w : Nat) (hw : 1 ≤ w)
+    (orig : Array Nat) (lumaLv : Array Rle.Dct) (k : Nat) (h1 : k / w < r.luma.size / w) (h2 : k % w / 16 < m)
+    (hi : k % w / 16 + k / w / 16 * m < min types.size mvs.size)
+    (ht : (types.getD (k % w / 16 + k / w / 16 * m) .inter).isInter = true)
+    (hmv : mvs.getD (k % w / 16 + k / w / 16 * m) zeroMv4 = zeroMv4)
+    (hlv : ∀ d, lumaLv[k % w / 8 + k / w / 8 * (m * 2)]? = some d → d = .zero) :
+    idctVal lumaLv (m * 2) w r.luma.size k (lumaAt types r mvs m w orig k) = r.luma.getD k 0 :=
+  not_coded_copies types r mvs m w hw orig lumaLv k h1 h2 hi ht hmv hlv
 
 open H263V.Lemmas.GatherPic H263V.Lemmas.ReconSpec in
 /-- a zero vector predicts the co-located reference sample (not-coded macroblocks, which also carry no residual, are exact copies
